@@ -9,8 +9,9 @@ tlbparsers_tx.py and only adds:
               `SrcTx.<Class>` (Generated/TlbParsersTx.lean); `Transaction` is called with the budget of the spec's `transaction` (3)
   reads       S.load_dict(N, value_deserializer=T.deserialize)      -> Rd.loadDict N (T false) S         (T a translated class)
               S.load_hashmap(N, value_deserializer=T.deserialize)   -> Rd.loadHashmap N (T false) sp S   (inline `Hashmap N X`)
-              S.load_hashmap_aug_e(N, x_deserializer=X, y_deserializer=Y) (keywords or positions; X, Y as above)
-                                                                    -> Rd.loadHashmapAugE N X Y sp S     (`(dict, extras)` tuple)
+              S.load_hashmap_aug_e(N, x_deserializer=X, y_deserializer=Y) (keywords or positions; X, Y as above; S a slice variable
+                   or <S'.load_ref().begin_parse()>)                -> Rd.loadHashmapAugE N X Y sp S     (`(dict, extras)` tuple)
+              S.load_hashmap_aug(N, x_deserializer=X, y_deserializer=Y) -> Rd.loadHashmapAug N X Y sp S  (inline `HashmapAug N X Y`)
               S.load_dict(N)                                        -> Rd.loadDictRaw N S   (values = raw Slices, presence only)
               <S.load_ref().begin_parse()>.load_hashmap(N, key_deserializer=lambda src: Builder().store_bits(src).to_slice().load_int(N),
                    value_deserializer=lambda src: src.load_ref().begin_parse())
@@ -56,6 +57,7 @@ CLASSES = [
     ('block', 'ShardAccounts'), ('block', 'OldMcBlocksInfo'), ('block', 'BlockCreateStats'),
     ('block', 'ConfigParams'), ('block', 'McStateExtra'), ('block', 'ShardStateUnsplit'),
     ('block', 'McBlockExtra'), ('block', 'ShardState'),
+    ('account', 'AccountBlock'), ('block', 'BlockExtra'),
 ]
 
 ERASED_KW = {('ShardAccount', 'cell')}
@@ -165,21 +167,27 @@ class FnBlk(TX.FnTx):
             else:
                 out.append(f'let ({t}, {s.var}) ← Rd.loadHashmap {n} {rd} {s.sp} {s.var}')
             return V(t, 'dict')
-        if isinstance(f, ast.Attribute) and isinstance(f.value, ast.Name) and isinstance(env.get(f.value.id), S) \
-                and f.attr == 'load_hashmap_aug_e':
-            s = env[f.value.id]
+        if isinstance(f, ast.Attribute) and f.attr in ('load_hashmap_aug_e', 'load_hashmap_aug'):
+            # the receiver: a slice variable, or <S.load_ref().begin_parse()> (a slice of its own; what the walk leaves is dropped)
+            if isinstance(f.value, ast.Name) and isinstance(env.get(f.value.id), S):
+                s, keep = env[f.value.id], True
+            elif isinstance(f.value, ast.Call) and isinstance(f.value.func, ast.Attribute) and f.value.func.attr == 'begin_parse':
+                s, keep = self.slice_of(f.value, env, out)[0], False
+            else:
+                raise Untranslatable(f'{f.attr}: receiver')
             names = ['key_length', 'x_deserializer', 'y_deserializer']
             args = dict(zip(names, e.args))
             for k in e.keywords:
                 if k.arg not in names or k.arg in args:
-                    raise Untranslatable('load_hashmap_aug_e arguments')
+                    raise Untranslatable(f'{f.attr} arguments')
                 args[k.arg] = k.value
             if set(args) != set(names) or const_int(args['key_length'], env) is None:
-                raise Untranslatable('load_hashmap_aug_e(N, x_deserializer, y_deserializer) expected')
+                raise Untranslatable(f'{f.attr}(N, x_deserializer, y_deserializer) expected')
             x = self.value_reader(args['x_deserializer'], env)
             y = self.value_reader(args['y_deserializer'], env)
             t = ctx.fresh()
-            out.append(f'let ({t}, {s.var}) ← Rd.loadHashmapAugE {const_int(args["key_length"], env)} {x} {y} {s.sp} {s.var}')
+            prim = 'Rd.loadHashmapAugE' if f.attr == 'load_hashmap_aug_e' else 'Rd.loadHashmapAug'
+            out.append(f'let ({t}, {s.var if keep else "_"}) ← {prim} {const_int(args["key_length"], env)} {x} {y} {s.sp} {s.var}')
             return V(t, 'val')
         return super().call(e, env, out)
 
